@@ -334,6 +334,14 @@ def check_aliases(ctx, rels):
             for node, t in class_level_stores(f.node, (f.cls.name,) if f.cls is not None else ()):
                 ctx.bad("instance-value-on-class:%s" % q.split(".", 1)[-1], "%s:%d" % (rel, node.lineno),
                         "%s stores a value computed from the instance on the class (`%s = ...`): all instances share the slot, so every other instance (another network, another key) finds the value of the one that filled it first" % (q, t))
+            if isinstance(f.node, (ast.FunctionDef, ast.AsyncFunctionDef)):
+                adopting = ctx.cache.get("adopting-constructors")
+                if adopting is None:
+                    adopting = ctx.cache["adopting-constructors"] = adopting_constructors(ctx.p)
+                for call, c, prm, arg in shared_tables_handed_to_constructors(ctx.p, f, adopting):
+                    ctx.bad("shared-table-handed-to-constructor:%s:%s" % (q.split(".", 1)[-1], prm), "%s:%d" % (rel, call.lineno),
+                            "%s creates a %s from `%s`, a table of a module-level object; %s.__init__ keeps that very object in self.%s and the class's methods write into it: every object made this way (one per network) and the module-level owner share one table, "
+                            "and what one of them registers replaces the entries of all the others" % (q, c.name, arg, c.name, adopting[c.qualname][1][prm]))
             for prm, node in shared_default_memos(f.node):
                 ctx.bad("default-argument-memo:%s:%s" % (q.split(".", 1)[-1], prm), "%s:%d" % (rel, node.lineno),
                         "%s fills AND consults its default argument `%s` (one object shared by every call and every receiver) while reading self: what one call remembered from one object's state is handed to later calls, for another object or after the state changed" % (q, prm))
@@ -703,4 +711,73 @@ def float_ops(fn):
             out.setdefault("** %r" % n.right.value, n)
         elif isinstance(n, ast.BinOp) and isinstance(n.op, ast.Div) and not (isinstance(n.left, ast.Constant) and isinstance(n.right, ast.Constant)):
             out.setdefault("/", n)
+    return out
+
+
+def adopting_constructors(program):
+    """{class qualname: {parameter: attribute}}: constructors that keep a parameter AS GIVEN in an attribute (self.x = p, or
+    `{} if p is None else p`) of a class with a method that changes that attribute in place -- the object writes into whatever
+    its creator handed it"""
+    out = {}
+    for q, c in program.classes.items():
+        init = c.methods.get("__init__")
+        if init is None:
+            continue
+        params = set(init.params()[1:])
+        kept = {}
+        for st in ast.walk(init.node):
+            if isinstance(st, (ast.Assign, ast.AnnAssign)):
+                tg = st.targets[0] if isinstance(st, ast.Assign) else st.target
+                v = st.value
+                if v is None or not (isinstance(tg, ast.Attribute) and isinstance(tg.value, ast.Name) and tg.value.id == "self"):
+                    continue
+                cands = [v] + ([v.body, v.orelse] if isinstance(v, ast.IfExp) else []) + (list(v.values) if isinstance(v, ast.BoolOp) else [])
+                for x in cands:
+                    if isinstance(x, ast.Name) and x.id in params:
+                        kept[x.id] = tg.attr
+        if not kept:
+            continue
+        mutated = set()
+        for nm, m in c.methods.items():
+            if nm == "__init__":
+                continue
+            for n in ast.walk(m.node):
+                if isinstance(n, ast.Subscript) and isinstance(n.ctx, (ast.Store, ast.Del)) and isinstance(n.value, ast.Attribute) and isinstance(n.value.value, ast.Name) and n.value.value.id == "self":
+                    mutated.add(n.value.attr)
+                elif isinstance(n, ast.Call) and isinstance(n.func, ast.Attribute) and n.func.attr in MUTATORS and isinstance(n.func.value, ast.Attribute) and isinstance(n.func.value.value, ast.Name) \
+                        and n.func.value.value.id == "self":
+                    mutated.add(n.func.value.attr)
+        kept = {p: a for p, a in kept.items() if a in mutated}
+        if kept:
+            out[q] = (c, kept)
+    return out
+
+
+def shared_tables_handed_to_constructors(program, f, adopting):
+    """[(call, class, parameter, argument text)]: in function f, a constructor of an adopting class is given an attribute of a
+    MODULE-LEVEL object (or a module-level table itself) for a parameter it keeps and later writes into"""
+    out = []
+    if not adopting:
+        return out
+    byname = {}
+    for q, (c, kept) in adopting.items():
+        byname.setdefault(c.name, []).append((c, kept))
+    locals_ = set(f.params()) | {n.id for n in ast.walk(f.node) if isinstance(n, ast.Name) and isinstance(n.ctx, ast.Store)}
+    for n in ast.walk(f.node):
+        if not (isinstance(n, ast.Call) and isinstance(n.func, (ast.Name, ast.Attribute))):
+            continue
+        cname = n.func.id if isinstance(n.func, ast.Name) else n.func.attr
+        for c, kept in byname.get(cname, []):
+            params = c.methods["__init__"].params()[1:]
+            bound = dict(zip(params, n.args))
+            bound.update({k.arg: k.value for k in n.keywords if k.arg})
+            for p, a in kept.items():
+                arg = bound.get(p)
+                if arg is None:
+                    continue
+                root = arg
+                while isinstance(root, (ast.Attribute, ast.Subscript)):
+                    root = root.value
+                if isinstance(root, ast.Name) and root.id not in locals_ and root.id not in ("self", "cls") and (root.id in f.module.assigns or root.id in f.module.imports) and not isinstance(arg, ast.Call):
+                    out.append((n, c, p, ast.unparse(arg)))
     return out
